@@ -15,6 +15,24 @@ Dist(A, B) == IF A \cup B = {} THEN <<0, 1>> ELSE <<Cardinality(SymDiff(A, B)), 
 \* the binary32 value that must be reported: the exact ratio rounded once
 Dist32(A, B) == LET q == Dist(A, B) IN F32Quot(q[1], q[2])
 
+\* ---------------------------------------------------------------- sets given as unions of intervals
+\* A set of naturals given as a sequence of disjoint half-open intervals <<lo, hi>>: cardinalities by arithmetic, so that
+\* sets of millions of elements can be judged (the quotient is still rounded by F32Quot; union < 2^24)
+IvLen(iv) == IF iv[2] > iv[1] THEN iv[2] - iv[1] ELSE 0
+RECURSIVE IvCard(_)
+IvCard(S) == IF S = <<>> THEN 0 ELSE IvLen(S[1]) + IvCard(Tail(S))
+IvMeet(x, y) == IvLen(<<Max2(x[1], y[1]), Min2(x[2], y[2])>>)
+RECURSIVE IvMeetRow(_, _), IvMeetAll(_, _)
+IvMeetRow(x, T) == IF T = <<>> THEN 0 ELSE IvMeet(x, T[1]) + IvMeetRow(x, Tail(T))
+IvMeetAll(S, T) == IF S = <<>> THEN 0 ELSE IvMeetRow(S[1], T) + IvMeetAll(Tail(S), T)
+IvDisjointSorted(S) == \A i \in 1..(Len(S) - 1) : S[i][2] <= S[i + 1][1]
+DistIv(S, T) ==
+  LET a == IvCard(S)  b == IvCard(T)  m == IvMeetAll(S, T)
+  IN IF a + b - m = 0 THEN <<0, 1>> ELSE <<a + b - 2 * m, a + b - m>>
+Dist32Iv(S, T) == LET q == DistIv(S, T) IN F32Quot(q[1], q[2])
+\* the interval form agrees with the set form (checked by MC_JaccardAxioms on small intervals)
+IvSet(S) == UNION { S[i][1]..(S[i][2] - 1) : i \in DOMAIN S }
+
 \* ------------------------------------------------------------------ fixed point for sums of float32 in [0,1]
 \* value in units of 2^-47 as two limbs <<hi, lo>> base 2^24 (floats below 2^-24 do not occur for d < 2^24)
 Fix(x) ==
